@@ -137,7 +137,7 @@ func deepCases(c *core.Ctx) []srcCase {
 	// interpolating strings more than 1024 block levels deep
 	nb := 1100
 	if c.Thorough() {
-		nb = 5000
+		nb = 2000
 	}
 	for _, src := range corpus.DeepBraces(nb) {
 		for _, v := range []string{"7.4", "5.6"} {
